@@ -501,6 +501,29 @@ theorem asis_tree_key :
       ≠ refRes (uxModel { treeKey := true }) sPlain 0 (.cached .ball [0, 1, 1] false true) := by
   decide +kernel
 
+/-- **Incomplete supplied edge table** (a source whose `edge_node_connectivity` does not list every
+    edge of its faces; /repo 2e3b10c9): the first read of `face_edge_connectivity` discards the table,
+    drops every variable along `n_edge` and re-derives — `edge_node_connectivity` (and supplied edge
+    coordinates) afterwards are not what a fresh copy of that source reports.  Known finding
+    `C08/history/source:incomplete-supplied-edge-table/…`; the table of this source class does not pass
+    `wfB` (a forced write with removals), so none of the theorems above is claimed for it. -/
+theorem incomplete_edges_rederived :
+    ((World.mk [] {}).run (uxModel { incompleteEdges := true })
+        [.open_ sEdges, .on 0 (.get .faceEdge)]).res (uxModel { incompleteEdges := true }) 0 (.get .edgeNode)
+      ≠ refRes (uxModel { incompleteEdges := true }) sEdges 0 (.get .edgeNode)
+    ∧ ((World.mk [] {}).run (uxModel { incompleteEdges := true })
+        [.open_ (.edgeLL :: sEdges), .on 0 (.get .faceEdge)]).res (uxModel { incompleteEdges := true }) 0 (.get .edgeLL)
+      ≠ refRes (uxModel { incompleteEdges := true }) (.edgeLL :: sEdges) 0 (.get .edgeLL)
+    ∧ wfB (uxTable { incompleteEdges := true } (sigOf sEdges)) (sigOf sEdges) = false := by
+  decide +kernel
+
+/-- … while a source without a supplied edge table is untouched by that branch -/
+example :
+    ((World.mk [] {}).run (uxModel { incompleteEdges := true })
+        [.open_ sPlain, .on 0 (.get .faceEdge)]).res (uxModel { incompleteEdges := true }) 0 (.get .edgeNode)
+      = refRes (uxModel { incompleteEdges := true }) sPlain 0 (.get .edgeNode) := by
+  decide +kernel
+
 /-- (seeded C08e) the tree wrappers keep one slot per `coordinates` kind; if the bookkeeping that
     travels with the wrapper (`_n_elements`: which `k` a query accepts) is refreshed only when a slot
     is BUILT, the history nodes → face centers → nodes hands back the node tree with the face count:
@@ -599,6 +622,18 @@ def sameMeaning (W : List (Nat × List (Nat × Nat))) : Bool :=
 theorem gen_no_unlisted_writes :
     GridWrites.unknownWrites = [] ∧ GridWrites.moduleWrites = [] ∧ GridWrites.inplaceWrites = []
     ∧ GridWrites.missingGetters = [] := by
+  decide +kernel
+
+/-- **The only store REMOVAL.**  The one getter that rebinds `Grid._ds` without some variables is
+    `face_edge_connectivity`'s (`_ds.drop_dims(ugrid.EDGE_DIM)`, taken only when a source-supplied
+    `edge_node_connectivity` does not list every edge of the faces): the model's write with
+    `drops := edgeDimVars` under the source class `incompleteEdges`; for every other source class the
+    model's table drops nothing (part of `wfB`, proved by `ux_wfVar`). -/
+theorem gen_drops :
+    GridWrites.dropDims = [(Var.code .faceEdge, ["ugrid.EDGE_DIM"])]
+    ∧ (Var.all.all (fun v => (uxUnit { incompleteEdges := true } (fun _ => false) v).writes.all
+          (fun w => w.drops.isEmpty || (v == .faceEdge && w.drops == edgeDimVars)))) = true
+    ∧ (Var.all.all (fun v => (uxUnit repaired (fun _ => false) v).writes.all (fun w => w.drops.isEmpty))) = true := by
   decide +kernel
 
 /-- **The model's table is the source's table** (reads and writes of every unit). -/
